@@ -241,7 +241,12 @@ func (c *aliasCtx) history(nops int) string {
 					newObj.tpl = jsonline.NewTemplate()
 					break
 				}
-				p, v := genPath(r), genPlainValue(r)
+				// one-segment paths only: a longer path writes BELOW the top level, into a nested row that
+				// CloneRow / CreateRow(row) share by design (outside C15, which speaks of the top level)
+				p, v := genKey(r), genPlainValue(r)
+				if strings.Contains(p, ".") {
+					p = "a"
+				}
 				desc = fmt.Sprintf("#%d.ImportAtPath(%q, %s)", rw, p, describe(v))
 				op = fmt.Sprintf("HImportAtPath %d %s %s", rw, gStr(p), gRv(v, c.sink))
 				_ = c.objs[rw].row.ImportAtPath(p, v)
